@@ -37,7 +37,7 @@ type hist struct {
 	ffDone            map[int]bool
 	handles           map[int]net.PacketConn
 	keys              map[string][3]string // every (ufrag,is6,ip) seen, for the final cleanup
-	afterID           int
+	afterID           map[int]bool
 	closeCh           chan struct{}
 	closeCalled       bool
 	claimed           map[string]bool
@@ -74,7 +74,7 @@ func newHist(cfg []string) *hist {
 	}
 	h := &hist{ft: cfg[1] == "1", wbuf: cfg[2] == "1", laddrOK: cfg[3] == "1", rt: atoi(cfg[4]),
 		conns: map[int]*fconn{}, ffDone: map[int]bool{}, handles: map[int]net.PacketConn{}, keys: map[string][3]string{}, claimed: map[string]bool{}}
-	h.afterID = curGoroutineMax()
+	h.afterID = iceGoroutines()
 	h.lis = newFakeListener(h.laddrOK)
 	lf := logging.NewDefaultLoggerFactory()
 	lf.DefaultLogLevel = logging.LogLevelDisabled
@@ -161,7 +161,10 @@ func (h *hist) get(hid int, u string, is6 bool, ip string) string {
 func (h *hist) expire(u string, is6 bool, ip string) string {
 	if h.rt == 2 {
 		// real alive timer: wait (bounded) until the packet conn registered there is closed
-		_, ch := ice.VerifTCPMuxExpireProbe(h.mux, u, is6, net.ParseIP(ip))
+		var ch <-chan struct{}
+		if !h.guard(func() { _, ch = ice.VerifTCPMuxExpireProbe(h.mux, u, is6, net.ParseIP(ip)) }) {
+			return "HANG"
+		}
 		if ch == nil {
 			return "0"
 		}
@@ -176,7 +179,11 @@ func (h *hist) expire(u string, is6 bool, ip string) string {
 			return "0"
 		}
 	}
-	armed, ch := ice.VerifTCPMuxExpire(h.mux, u, is6, net.ParseIP(ip))
+	var armed bool
+	var ch <-chan struct{}
+	if !h.guard(func() { armed, ch = ice.VerifTCPMuxExpire(h.mux, u, is6, net.ParseIP(ip)) }) {
+		return "HANG"
+	}
 	if !armed {
 		return "0"
 	}
@@ -503,7 +510,8 @@ func (h *hist) cleanup() string {
 	}
 	for {
 		for _, k := range h.keys {
-			ice.VerifTCPMuxExpire(h.mux, k[0], k[1] == "1", net.ParseIP(k[2]))
+			k := k
+			go func() { ice.VerifTCPMuxExpire(h.mux, k[0], k[1] == "1", net.ParseIP(k[2])) }()
 		}
 		for _, pc := range h.handles {
 			pc := pc
@@ -516,7 +524,7 @@ func (h *hist) cleanup() string {
 		if time.Now().After(deadline) {
 			return "leak"
 		}
-		time.Sleep(200 * time.Microsecond)
+		time.Sleep(2 * time.Millisecond)
 	}
 }
 
